@@ -48,8 +48,11 @@ def run_case(case):
         if case.get("tf") is not None:
             T = case["tf"]
         else:
-            T = [t for t, lvl in tf_.enum_transforms(net_in, tier, na.HOT[case["base"]])
-                 if tf_.level_applies(lvl, opt, case["opts"], tier)]
+            if case.get("composite"):
+                T = tf_.enum_composite(net_in, na.HOT[case["base"]])
+            else:
+                T = [t for t, lvl in tf_.enum_transforms(net_in, tier, na.HOT[case["base"]])
+                     if tf_.level_applies(lvl, opt, case["opts"], tier)]
             if case.get("zip"):
                 T = [t for t in T if t[0] in ("split", "split_zip")]
         for t in T:
@@ -74,7 +77,8 @@ def _pair(net_unsolved, net_solved, opt, t, base):
     kind = t[0]
     clause = {"sn": "sn_mva", "relabel": "relabel", "rowperm": "row_permutation", "split": "split_pq",
               "split_zip": "split_zip_load", "unparallel": "parallel_lines", "swapline": "swap_from_to",
-              "add": "added_inactive_element", "splitbus": "fused_bus_split"}[kind]
+              "add": "added_inactive_element", "splitbus": "fused_bus_split", "relabel_all": "relabel",
+              "rowperm_all": "row_permutation", "split_all": "split_pq", "swap_all": "swap_from_to"}[kind]
     if base.get("zip"):
         clause = "split_zip_load"
     vcase = dict(base)
@@ -113,8 +117,9 @@ def gen_cases(tier):
     opts = OPTS_QUICK if tier == "quick" else OPTS_THOROUGH
     for b in ba.BASES:
         for devs in na.subsets(ba.menu(b), k):
-            c = {"base": b, "devs": [list(d) for d in devs], "opts": opts if len(devs) < 2 else ["ac", "ac_nonumba"],
-                 "tier": "quick" if len(devs) == 2 else tier}
+            c = {"base": b, "devs": [list(d) for d in devs], "opts": opts, "tier": tier}
+            if len(devs) == 2:      # thorough only: the k=2 networks get the composite transformation set
+                c.update({"opts": ["ac", "ac_nonumba"], "composite": True})
             cases.append(c)
         for devs in ba.zip_cases(b):
             cases.append({"base": b, "devs": devs, "opts": ["ac", "ac_nonumba"], "zip": True, "tier": tier})
